@@ -44,7 +44,7 @@ UNPROVED = ["the gob encoding round trip of userProfile (U2F registrations, WebA
 def run(ctx):
     ctx.audit("Props.C15", PROPS)
     ctx.extract()
-    files = ["kmd/common.go", "kmd/creds.go", "kmd/faultdb.go", "kmd/vdevice.go", "kmd/storeenv.go", "kmd/c15.go", "kmd/c15vol.go",
+    files = ["kmd/common.go", "kmd/creds.go", "kmd/faultdb.go", "kmd/vdevice.go", "kmd/storeenv.go", "kmd/c15.go",
              os.path.join(ctx.work, "gen", "mux_gen.go")]
     ok, result, log = ctx.go_harness("cmd/keymasterd", "TestVerif_C15", files, timeout=1500)
     compile_gen(ctx, ("Routes.v", "Tables.v", "Consts.v"))
